@@ -10,7 +10,7 @@
 From Coq Require Import List Bool NArith ZArith.
 From Coq.Strings Require Import Byte String.
 From Verif Require Import Base.Bytes Idl.Ast Idl.Lex Idl.LexFacts Idl.Parse Idl.Dump
-  Idl.DumpFacts Idl.DumpLexFacts Idl.DumpParseFacts Idl.DumpTopFacts Idl.DumpLitFacts.
+  Idl.DumpFacts Idl.DumpLexFacts Idl.DumpNumFacts Idl.DumpParseFacts Idl.DumpTopFacts Idl.DumpLitFacts.
 Import ListNotations.
 
 (* ---- string literals keep their exact characters (the escaping is exact).
@@ -37,6 +37,18 @@ Example C17_literal_domain_inhabited :
   lit_ok (hx "61 5c 22 62 27 26 23"%string) = true /\ lit_ok (B "#OUTQUOTES ##34; &amp;"%string) = true.
 Proof. split; reflexivity. Qed.
 
+(* ---- numbers: what fmt.Sprintf("%d") writes is read back by strconv.ParseInt as the same number,
+   for every constant / enum value in the int64 range and every field id in the int32 range *)
+Theorem C17_int_value_print_Z :
+  forall z, in_i64 z = true -> int_value (print_Z z) = Some z.
+Proof. exact int_value_print_Z. Qed.
+Print Assumptions C17_int_value_print_Z.
+
+Theorem C17_field_id_value_print_Z :
+  forall z, in_i32 z = true -> field_id_value (print_Z z) = z.
+Proof. exact field_id_value_print_Z. Qed.
+Print Assumptions C17_field_id_value_print_Z.
+
 (* ---- dump_view_equal: the view (what the written text denotes) equals the original on
    everything the property lists: definitions, names, type expressions, field ids,
    requiredness, defaults and constant values, enum values, annotation key/value lists,
@@ -53,7 +65,9 @@ Print Assumptions C17_dump_view_equal.
 
 (* ---- the dumped text lexes into exactly the tokens the dumper wrote, its white space as
    trivia, for every file whose names are words of the grammar, whose literal values are in
-   [lit_ok], whose double texts have a number shape, and that records no comments. *)
+   [lit_ok], whose double texts have a number shape, and whose recorded comments are blank or
+   read back as trivia ([cmt_lex]: what parseReservedComments records — line, hash and block
+   comments joined by line feeds — satisfies it; the sample below carries every kind). *)
 Theorem C17_lex_dump :
   forall (fmt : N -> bytes) (a : file), lex_ok fmt a = true ->
   lex (dump fmt a) = Some (group [] (dump_pieces fmt a)).
@@ -62,7 +76,7 @@ Print Assumptions C17_lex_dump.
 
 (* ---- parse_dump: the parser accepts the dumped text and returns the view, up to the
    comment fields.  [dump_ok] (decidable, Idl/DumpParseFacts.v) = lex_ok, the parser-built
-   shape with numbers that read back ([pd_ok]), the view is expressible by the token grammar
+   shape with ids in i32 and integer values in i64 ([pd_ok]), the view is expressible by the token grammar
    (wf_file of Idl/Print.v: no keyword as a name, ids in i32, values in i64). *)
 Theorem C17_parse_dump :
   forall (fmt : N -> bytes) (a : file), dump_ok fmt a = true ->
@@ -81,7 +95,8 @@ Print Assumptions C17_roundtrip.
 
 (* the hypotheses are satisfiable: a file with every kind of node (negative ids, both quote
    kinds, the former placeholders, annotations on types and namespaces, nested constants,
-   doubles, cpp_include, an empty union, oneway, two throws) is in the domain *)
+   doubles, cpp_include, an empty union, oneway, two throws, recorded line / block / multi-line
+   comments on a typedef, an enum, enum values, a struct, a field and a function) is in the domain *)
 Example C17_domain_inhabited : dump_ok sample_fmt sample_file = true /\ view_ok sample_fmt sample_file = true.
 Proof. exact sample_in_domain. Qed.
 
